@@ -932,6 +932,10 @@ class Connection (EventMixin):
           return False # Throw connection away
 
       msg_length = self.buf[offset+2] << 8 | self.buf[offset+3]
+      if msg_length < 8:
+        log.warning("Bad OpenFlow message length (%i) on connection %s"
+                    % (msg_length, self))
+        return False # Throw connection away
 
       if buf_len - offset < msg_length: break
 
